@@ -201,14 +201,18 @@ def run_op(b: Built, op: dict):
             if len(b.powertrain.time) - n0 > 2 * nexp + 10:
                 raise Runaway(f'{len(b.powertrain.time) - n0} instants recorded for a grid of {nexp:.6g} steps')
             signal.setitimer(signal.ITIMER_REAL, 5.0)
+        import time as _time
         old = signal.signal(signal.SIGALRM, on_alarm)
-        signal.setitimer(signal.ITIMER_REAL, 5.0)
+        outer_left, _ = signal.setitimer(signal.ITIMER_REAL, 5.0)
+        t_start = _time.monotonic()
         try:
             b.solver.run(time_discretization=B.q('TimeInterval', op['dt']),
                          simulation_time=B.q('TimeInterval', op['T']), **kw)
         finally:
             signal.setitimer(signal.ITIMER_REAL, 0)
             signal.signal(signal.SIGALRM, old)
+            if outer_left:        # re-arm the runner's per-case watchdog with what is left of it
+                signal.setitimer(signal.ITIMER_REAL, max(outer_left - (_time.monotonic() - t_start), 0.01))
     elif kind == 'reset':
         b.powertrain.reset()
         if op.get('reinit', True):
